@@ -492,7 +492,11 @@ func ruleSnapshot(r *Run) {
 				}
 				return r.P.Canon(ml.Fn, x)
 			}
-			sess := r.joinSessionCanon(fn)
+			// the session being joined: the receiver of AddParticipant on this path
+			sess := ""
+			if iAdd >= 0 && r.isJoinLocalSession(fn, path.Events[iAdd].Recv) {
+				sess = r.P.Canon(ml.Fn, path.Events[iAdd].Recv)
+			}
 			okP := get("Participants") == "call:models.ParticipantsToProtobuf("+sess+".call:Session.GetParticipants())"
 			okE := get("Entities") == "call:models.EntitiesToProtobuf("+sess+".call:Session.Entities())"
 			okC := get("EntityComponents") == sess+".entityComponents.call:EntityComponentStore.ListAll()"
@@ -529,6 +533,12 @@ func ruleSnapshot(r *Run) {
 			for _, op := range r.mapOps(sf, &path) {
 				iter++
 				okEl := op.Kind == "write" && op.Key == "rangekey(param:"+param+")" && op.Val == "rangeval(param:"+param+").call:"+q.elem+"()"
+				if !okEl && op.Kind == "write" && strings.HasPrefix(op.Key, "local:") {
+					// for i := 0; i < len(in); i++ { out[i] = in[i].ToProtobuf() }
+					g := r.guardMap(&path)
+					_, bounded := g["cmp:"+op.Key+"<len(param:"+param+")"]
+					okEl = bounded && op.Val == "param:"+param+"["+op.Key+"].call:"+q.elem+"()"
+				}
 				r.CheckT("C7", sf.Name+":elementwise", okEl, sf.Body.Pos(), &path, "every element is serialised into its own slot")
 			}
 			ret := r.retCanon(sf, &path)
@@ -784,7 +794,7 @@ func (r *Run) joinSessionCanon(fn *Func) string {
 				ok = false
 				break
 			}
-			f, _ := r.calleeOfExpr(fn, s.rhs)
+			f, _ := r.calleeOfExpr(fn, r.throughLocals(fn, s.rhs))
 			if f == nil {
 				ok = false
 				break
